@@ -22,6 +22,9 @@ from . import common
 from .common import zlit, listlit, strlit
 
 _EQ = None
+# False = /repo as it is today (explicit_path returns whatever the listed line elements spell: findings F11, F11b).
+# Set to True in the same step as the fix: commit that validates the explicit path (model_ccp_checked in Model/Route.v).
+EXPLICIT_CHECKED = False
 
 
 def eqpt():
@@ -398,7 +401,7 @@ def coq_rq(N, rq, obs):
 
 
 def coq_net_term(N, pairs):
-    return (f'run_net {N.coq_graph()} {N.coq_kinds()} {N.coq_oms()} {N.coq_fibres()} '
+    return (f'run_net {"true" if EXPLICIT_CHECKED else "false"} {N.coq_graph()} {N.coq_kinds()} {N.coq_oms()} {N.coq_fibres()} '
             f'{listlit([coq_rq(N, rq, obs) for rq, obs in pairs])}')
 
 
@@ -657,36 +660,40 @@ def run(ctx):
             nets.append(c)
         for _ in range(ctx.scale(110, 1500)):
             nets.append({'topo': gen_case(rng), 'requests': None})
-    terms, meta = [], []
-    for c in nets:
-        if c.get('big'):
-            continue
-        N = Net(c['topo'])
-        if not N.exact:
-            ctx.count('skipped_inexact_weights')
-            continue
-        if N.weight_mismatch:
-            u, v, got, want = N.weight_mismatch[0]
-            ctx.violation('edge_weight_not_fibre_length', f'edge {u} -> {v} weighs {got}, fibre length rule gives {want}',
-                          {'topo': c['topo'], 'requests': []})
-        reqs = c['requests'] if c['requests'] is not None else [gen_request(rng, N, k) for k in range(8)]
-        pairs = []
-        for rq in reqs:
-            obs = drive_request(N, rq)
-            pairs.append((rq, obs))
-            ctx.count('style_' + rq['style'])
-            ctx.count('outcome_' + obs['out'][:1])
-            ctx.case({'topo': c['topo'], 'requests': [rq]}, bool(rq['nodes']))
-        ctx.count('networks')
-        ctx.count('sites_%d' % c['topo']['n'])
-        terms.append(coq_net_term(N, pairs))
-        meta.append((N, c, pairs))
-    lines = common.coq_eval('C11', 'Prelude Model.Route Run.C11', terms, per_file=ctx.scale(8, 12))
-    for (N, c, pairs), line in zip(meta, lines):
-        parts = line.split(';')
-        for (rq, obs), txt in zip(pairs, parts):
-            case = {'topo': c['topo'], 'requests': [rq]}
-            judge(ctx, N, rq, obs, txt, case)
+    # networks are processed in chunks so that at most ~120 designed gnpy networks are alive at a time
+    chunk = 120
+    for k0 in range(0, len(nets), chunk):
+        terms, meta = [], []
+        for c in nets[k0:k0 + chunk]:
+            if c.get('big'):
+                continue
+            N = Net(c['topo'])
+            if not N.exact:
+                ctx.count('skipped_inexact_weights')
+                continue
+            if N.weight_mismatch:
+                u, v, got, want = N.weight_mismatch[0]
+                ctx.violation('edge_weight_not_fibre_length', f'edge {u} -> {v} weighs {got}, fibre length rule gives {want}',
+                              {'topo': c['topo'], 'requests': []})
+            reqs = c['requests'] if c['requests'] is not None else [gen_request(rng, N, k) for k in range(8)]
+            pairs = []
+            for rq in reqs:
+                obs = drive_request(N, rq)
+                pairs.append((rq, obs))
+                ctx.count('style_' + rq['style'])
+                ctx.count('outcome_' + obs['out'][:1])
+                ctx.case({'topo': c['topo'], 'requests': [rq]}, bool(rq['nodes']))
+            ctx.count('networks')
+            ctx.count('sites_%d' % c['topo']['n'])
+            terms.append(coq_net_term(N, pairs))
+            meta.append((N, c, pairs))
+        lines = common.coq_eval('C11', 'Prelude Model.Route Run.C11', terms, per_file=8)
+        for (N, c, pairs), line in zip(meta, lines):
+            parts = line.split(';')
+            for (rq, obs), txt in zip(pairs, parts):
+                case = {'topo': c['topo'], 'requests': [rq]}
+                judge(ctx, N, rq, obs, txt, case)
+        del terms, meta
     if not ctx.replay:
         run_big(ctx, rng, ctx.scale(10, 80))
     elif nets[0].get('big'):
